@@ -203,6 +203,47 @@ def rule_m4(F):
     return r
 
 
+def rule_m5(F):
+    from ..report import RuleResult as RR
+    r = RR("C15.M5", "concatenation returns a freshly allocated list on every path (never a handle aliasing an operand)", floor=1)
+    for fn in ("value::list::ErasedList::concat",):
+        b = F.body(fn)
+        if b is None or not b.mir:
+            r.missing(fn)
+            continue
+        defs = mir.Defs(b)
+        n = 0
+        for d in defs.whole_defs(0):
+            n += 1
+            if d[2] == "assign":
+                rv = d[3]["rv"]
+                src = rv["o"][1] if rv["k"] == "use" and mir.is_place_op(rv["o"]) else None
+                root, path = mir.origin(b, defs, src) if src else ("?", [])
+                line = d[3]["line"]
+            else:
+                root, path = "call:" + mir.callee(d[3]), []
+                a0 = d[3]["args"][0] if d[3]["args"] else None
+                if mir.callee_def(d[3]).endswith("Clone::clone") and mir.is_place_op(a0):
+                    r0, p0 = mir.origin(b, defs, a0[1])
+                    root = "clone of " + r0
+                line = d[3]["line"]
+            r.inst("%s return #%d" % (fn.rsplit("::", 1)[-1], n), {"fn": fn, "returns": root})
+            if not root.startswith("call:value::list::ErasedList::new"):
+                r.bad(fn, "return #%d aliases" % n, relfile(b.file), line,
+                      "concat returns %s instead of a new list: the result shares storage with an operand, so a later push through the result changes the operand (and no elements were cloned)" % root)
+        if n == 0:
+            r.missing("return value definition in " + fn)
+    # the Rust API and the script operator go through ErasedList::concat
+    for p in F.paths():
+        if p.endswith("List::<T>::concat") and "boundary" in p:
+            b = F.body(p)
+            ok = any(mir.callee(t) == "value::list::ErasedList::concat" for _, t in mir.calls(b))
+            r.inst("List<T>::concat delegates", {"ok": ok})
+            if not ok:
+                r.bad(p, "delegation", relfile(b.file), b.line, "List<T>::concat no longer goes through ErasedList::concat")
+    return r
+
+
 def _scope(F):
     return [b for b in F.all_bodies() if b.mir]
 
@@ -220,7 +261,7 @@ def rules(ctx):
                    "value::list::ErasedList::concat"):
         if not F.has(anchor):
             m1.missing(anchor)
-    return [m1, m2, rule_m4(F)]
+    return [m1, m2, rule_m4(F), rule_m5(F)]
 
 
 def canary(C):
